@@ -1,5 +1,13 @@
 /-! Event-sourced model of EntityLocal.GetOrAddFeature and NextFeatureId (spine/entity_local.go, entity.go).
-    As written the lookup and the creation are two critical sections; repaired they are one. -/
+
+    As written the lookup (`FeatureOfTypeAndRole`, under the entity lock) and the creation
+    (`NewFeatureLocal(NextFeatureId(), …)` + append, under the entity lock again) are two critical sections: events
+    `lookup` and `create`. The family has one flag, `recheck`:
+    * `recheck = false` — the code as written: `create` creates unconditionally;
+    * `recheck = true`  — the repair of DESIGN §9 (look up again under the creation lock): `create` returns the
+      feature that appeared in the meantime instead of creating a second one.
+    `getOrAdd` is a call that no other call overlaps (lookup and creation adjacent), `nextId` a direct call of
+    `NextFeatureId`. Every call records the feature it returned (`res`). -/
 namespace Spine.Feat
 
 structure F where
@@ -12,112 +20,233 @@ structure St where
   nextId : Nat := 1
   feats : List F := []
   missed : List (Nat × Nat × Nat) := []   -- (operation, type, role): looked up, found nothing, not created yet
+  res : List (Nat × F) := []              -- (operation, the feature it returned)
 
 inductive Ev
   | lookup (op typ role : Nat)        -- FeatureOfTypeAndRole under the lock
-  | create (op : Nat)                 -- NewFeatureLocal(NextFeatureId(), …) and append, under the lock
-  | getOrAdd (typ role : Nat)         -- repaired: lookup and creation in one critical section
+  | create (op : Nat)                 -- creation under the lock (with or without a second lookup)
+  | getOrAdd (op typ role : Nat)      -- lookup and creation with nothing in between
   | nextId                            -- NextFeatureId called directly
+
+def find (s : St) (typ role : Nat) : Option F := s.feats.find? fun f => f.typ = typ && f.role = role
 
 def has (s : St) (typ role : Nat) : Bool := s.feats.any fun f => f.typ = typ && f.role = role
 
-def step (s : St) : Ev → St
-  | .lookup op typ role => if has s typ role then s else { s with missed := (op, typ, role) :: s.missed }
+/-- NewFeatureLocal(NextFeatureId(), …) and append -/
+def mk (s : St) (op typ role : Nat) : St :=
+  { s with nextId := s.nextId + 1, feats := s.feats ++ [⟨s.nextId, typ, role⟩],
+           res := (op, ⟨s.nextId, typ, role⟩) :: s.res }
+
+def ret (s : St) (op : Nat) (f : F) : St := { s with res := (op, f) :: s.res }
+
+def unmiss (s : St) (op : Nat) : St := { s with missed := s.missed.filter (·.1 ≠ op) }
+
+def create (recheck : Bool) (s : St) (op typ role : Nat) : St :=
+  match (if recheck then find s typ role else none) with
+  | some f => ret (unmiss s op) op f
+  | none => mk (unmiss s op) op typ role
+
+def step (recheck : Bool) (s : St) : Ev → St
+  | .lookup op typ role =>
+    match find s typ role with
+    | some f => ret s op f
+    | none => { s with missed := (op, typ, role) :: s.missed }
   | .create op =>
     match s.missed.find? (·.1 = op) with
     | none => s
-    | some (_, typ, role) =>
-      { nextId := s.nextId + 1, feats := s.feats ++ [⟨s.nextId, typ, role⟩], missed := s.missed.filter (·.1 ≠ op) }
-  | .getOrAdd typ role =>
-    if has s typ role then s else { s with nextId := s.nextId + 1, feats := s.feats ++ [⟨s.nextId, typ, role⟩] }
+    | some (_, typ, role) => create recheck s op typ role
+  | .getOrAdd op typ role =>
+    match find s typ role with
+    | some f => ret s op f
+    | none => mk s op typ role
   | .nextId => { s with nextId := s.nextId + 1 }
 
-def run (evs : List Ev) : St := evs.foldl step {}
+def run (recheck : Bool) (evs : List Ev) : St := evs.foldl (step recheck) {}
 
 /-- as written: two goroutines asking for the same type and role both miss and both create -/
 theorem double_creation_witness :
-    (run [.lookup 1 7 0, .lookup 2 7 0, .create 1, .create 2]).feats = [⟨1, 7, 0⟩, ⟨2, 7, 0⟩] := by decide
+    (run false [.lookup 1 7 0, .lookup 2 7 0, .create 1, .create 2]).feats = [⟨1, 7, 0⟩, ⟨2, 7, 0⟩] := by decide
 
-/-- feature numbers are never reused or duplicated — true of the code as written, for every interleaving -/
-theorem ids_fresh (evs : List Ev) :
-    ((run evs).feats.map (·.id)).Nodup ∧ ∀ f ∈ (run evs).feats, f.id < (run evs).nextId := by
+/-- … and are handed two different features -/
+theorem two_features_witness :
+    (run false [.lookup 1 7 0, .lookup 2 7 0, .create 1, .create 2]).res = [(2, ⟨2, 7, 0⟩), (1, ⟨1, 7, 0⟩)] := by decide
+
+/-- the same schedule on the repaired member: one feature, handed to both -/
+theorem repaired_witness :
+    (run true [.lookup 1 7 0, .lookup 2 7 0, .create 1, .create 2]).feats = [⟨1, 7, 0⟩] ∧
+    (run true [.lookup 1 7 0, .lookup 2 7 0, .create 1, .create 2]).res = [(2, ⟨1, 7, 0⟩), (1, ⟨1, 7, 0⟩)] := by decide
+
+/-! ### feature numbers are fresh — both members, every interleaving -/
+
+def Fresh (s : St) : Prop := (s.feats.map (·.id)).Nodup ∧ ∀ f ∈ s.feats, f.id < s.nextId
+
+theorem fresh_mk (s : St) (h : Fresh s) (op typ role : Nat) : Fresh (mk s op typ role) := by
+  refine ⟨?_, ?_⟩
+  · simp only [mk, List.map_append, List.map_cons, List.map_nil]
+    rw [List.nodup_append]
+    refine ⟨h.1, by simp, ?_⟩
+    intro a ha b hb
+    simp only [List.mem_singleton] at hb; subst hb
+    obtain ⟨f, hf, rfl⟩ := List.mem_map.mp ha
+    have := h.2 f hf
+    omega
+  · intro f hf
+    simp only [mk] at hf ⊢
+    rcases List.mem_append.mp hf with hf | hf
+    · exact Nat.lt_succ_of_lt (h.2 f hf)
+    · simp only [List.mem_singleton] at hf; subst hf; exact Nat.lt_succ_self _
+
+theorem fresh_step (recheck : Bool) (s : St) (h : Fresh s) (e : Ev) : Fresh (step recheck s e) := by
+  cases e with
+  | lookup op typ role => simp only [step]; split <;> exact h
+  | create op =>
+    simp only [step]
+    split
+    · exact h
+    · simp only [create]
+      split
+      · exact h
+      · exact fresh_mk (unmiss s op) h _ _ _
+  | getOrAdd op typ role =>
+    simp only [step]
+    split
+    · exact h
+    · exact fresh_mk s h _ _ _
+  | nextId => exact ⟨h.1, fun f hf => Nat.lt_succ_of_lt (h.2 f hf)⟩
+
+/-- feature numbers are never reused or duplicated — true of the code as written and of the repaired code, for
+    every interleaving of any number of calls -/
+theorem ids_fresh (recheck : Bool) (evs : List Ev) : Fresh (run recheck evs) := by
   unfold run
-  suffices ∀ s : St, ((s.feats.map (·.id)).Nodup ∧ ∀ f ∈ s.feats, f.id < s.nextId) →
-      (((evs.foldl step s).feats.map (·.id)).Nodup ∧ ∀ f ∈ (evs.foldl step s).feats, f.id < (evs.foldl step s).nextId) from
-    this {} ⟨by simp, by simp⟩
+  suffices ∀ s : St, Fresh s → Fresh (evs.foldl (step recheck) s) from this {} ⟨by simp, by simp⟩
   induction evs with
   | nil => intro s h; exact h
-  | cons e es ih =>
-    intro s h
-    apply ih
-    have app : ∀ typ role : Nat, ((((s.feats ++ [(⟨s.nextId, typ, role⟩ : F)]).map (fun f : F => f.id)).Nodup) ∧
-        ∀ f ∈ s.feats ++ [(⟨s.nextId, typ, role⟩ : F)], f.id < s.nextId + 1) := by
-      intro typ role
-      refine ⟨?_, ?_⟩
-      · simp only [List.map_append, List.map_cons, List.map_nil]
-        rw [List.nodup_append]
-        refine ⟨h.1, by simp, ?_⟩
-        intro a ha b hb
-        simp only [List.mem_singleton] at hb; subst hb
-        obtain ⟨f, hf, rfl⟩ := List.mem_map.mp ha
-        have := h.2 f hf
-        omega
-      · intro f hf
-        rcases List.mem_append.mp hf with hf | hf
-        · exact Nat.lt_succ_of_lt (h.2 f hf)
-        · simp only [List.mem_singleton] at hf; subst hf; exact Nat.lt_succ_self _
-    cases e with
-    | lookup op typ role => simp only [step]; split <;> exact h
-    | create op =>
-      simp only [step]
-      split
-      · exact h
-      · exact app _ _
-    | getOrAdd typ role =>
-      simp only [step]
-      split
-      · exact h
-      · exact app _ _
-    | nextId => exact ⟨h.1, fun f hf => Nat.lt_succ_of_lt (h.2 f hf)⟩
+  | cons e es ih => intro s h; exact ih _ (fresh_step recheck s h e)
 
-def repaired : Ev → Bool | .getOrAdd .. => true | .nextId => true | _ => false
+/-- the numbers handed out grow strictly: a feature created later has a larger number than every existing one -/
+theorem ids_increasing (s : St) (h : Fresh s) (op typ role : Nat) :
+    ∀ f ∈ s.feats, f.id < s.nextId ∧ (mk s op typ role).feats = s.feats ++ [⟨s.nextId, typ, role⟩] :=
+  fun f hf => ⟨h.2 f hf, rfl⟩
+
+/-! ### one feature per type and role -/
 
 def OnePer (s : St) : Prop := ∀ typ role, (s.feats.filter fun f => f.typ = typ && f.role = role).length ≤ 1
 
-/-- C07 (repaired code): however many goroutines ask, there is one feature per type and role -/
-theorem c07_one_feature_per_type_role (evs : List Ev) (hrep : ∀ e ∈ evs, repaired e = true) : OnePer (run evs) := by
+theorem filter_nil_of_find_none (s : St) (typ role : Nat) (h : find s typ role = none) :
+    (s.feats.filter fun f => f.typ = typ && f.role = role) = [] := by
+  rw [List.filter_eq_nil_iff]
+  intro f hf
+  have := List.find?_eq_none.mp h f hf
+  simpa using this
+
+theorem onePer_mk (s : St) (h : OnePer s) (op typ role : Nat) (hn : find s typ role = none) :
+    OnePer (mk s op typ role) := by
+  intro t r
+  simp only [mk, List.filter_append, List.length_append]
+  have hprev := h t r
+  by_cases htr : typ = t ∧ role = r
+  · obtain ⟨rfl, rfl⟩ := htr
+    rw [filter_nil_of_find_none s typ role hn]
+    simp
+  · have : (decide (typ = t) && decide (role = r)) = false := by
+      simp only [Bool.and_eq_false_imp, decide_eq_true_eq, decide_eq_false_iff_not]
+      intro h1 h2; exact htr ⟨h1, h2⟩
+    simp [this]; exact hprev
+
+/-- results are existing features of the requested type and role -/
+def ResOk (s : St) : Prop := ∀ p ∈ s.res, p.2 ∈ s.feats
+
+theorem resOk_mk (s : St) (h : ResOk s) (op typ role : Nat) : ResOk (mk s op typ role) := by
+  intro p hp
+  simp only [mk, List.mem_cons] at hp ⊢
+  rcases hp with rfl | hp
+  · simp
+  · exact List.mem_append_left _ (h p hp)
+
+theorem resOk_ret (s : St) (h : ResOk s) (op : Nat) (f : F) (hf : f ∈ s.feats) : ResOk (ret s op f) := by
+  intro p hp
+  simp only [ret, List.mem_cons] at hp ⊢
+  rcases hp with rfl | hp
+  · exact hf
+  · exact h p hp
+
+theorem find_mem (s : St) (typ role : Nat) (f : F) (h : find s typ role = some f) : f ∈ s.feats :=
+  List.mem_of_find?_eq_some h
+
+/-- an event of the repaired code: every event when the creation re-checks; without the re-check only calls that
+    nothing overlaps -/
+def repaired (recheck : Bool) : Ev → Bool
+  | .getOrAdd .. => true
+  | .nextId => true
+  | _ => recheck
+
+theorem good_step (recheck : Bool) (s : St) (h : OnePer s ∧ ResOk s) (e : Ev) (hr : repaired recheck e = true) :
+    OnePer (step recheck s e) ∧ ResOk (step recheck s e) := by
+  cases e with
+  | nextId => exact h
+  | getOrAdd op typ role =>
+    simp only [step]
+    split
+    · rename_i f hf; exact ⟨h.1, resOk_ret s h.2 op f (find_mem s typ role f hf)⟩
+    · rename_i hn; exact ⟨onePer_mk s h.1 op typ role hn, resOk_mk s h.2 op typ role⟩
+  | lookup op typ role =>
+    simp only [step]
+    split
+    · rename_i f hf; exact ⟨h.1, resOk_ret s h.2 op f (find_mem s typ role f hf)⟩
+    · exact h
+  | create op =>
+    simp only [repaired] at hr; subst hr
+    simp only [step]
+    split
+    · exact h
+    · rename_i typ role _
+      simp only [create, if_true]
+      split
+      · rename_i f hf
+        exact ⟨h.1, resOk_ret (unmiss s op) h.2 op f (find_mem s typ role f hf)⟩
+      · rename_i hn
+        exact ⟨onePer_mk (unmiss s op) h.1 op typ role hn, resOk_mk (unmiss s op) h.2 op typ role⟩
+
+theorem good_run (recheck : Bool) (evs : List Ev) (hrep : ∀ e ∈ evs, repaired recheck e = true) :
+    OnePer (run recheck evs) ∧ ResOk (run recheck evs) := by
   unfold run
-  suffices ∀ s, OnePer s → OnePer (evs.foldl step s) from this {} (by intro t r; simp)
+  suffices ∀ s, OnePer s ∧ ResOk s → OnePer (evs.foldl (step recheck) s) ∧ ResOk (evs.foldl (step recheck) s) from
+    this {} ⟨by intro t r; simp, by intro p hp; simp at hp⟩
   induction evs with
   | nil => intro s h; exact h
   | cons e es ih =>
     intro s h
-    apply ih (fun e' he' => hrep e' (List.mem_cons_of_mem _ he'))
-    have hr := hrep e List.mem_cons_self
-    cases e with
-    | lookup op typ role => simp [repaired] at hr
-    | create op => simp [repaired] at hr
-    | nextId => exact h
-    | getOrAdd typ role =>
-      simp only [step]
-      split
-      · exact h
-      · rename_i hnone
-        intro t r
-        simp only [List.filter_append, List.length_append]
-        have hprev := h t r
-        by_cases htr : typ = t ∧ role = r
-        · obtain ⟨rfl, rfl⟩ := htr
-          have hz : (s.feats.filter fun f => decide (f.typ = typ) && decide (f.role = role)).length = 0 := by
-            have hn : has s typ role = false := by simpa using hnone
-            rw [List.length_eq_zero_iff, List.filter_eq_nil_iff]
-            intro f hf
-            have := List.any_eq_false.mp hn f hf
-            simpa using this
-          simp [hz]
-        · have : (decide (typ = t) && decide (role = r)) = false := by
-            simp only [Bool.and_eq_false_imp, decide_eq_true_eq, decide_eq_false_iff_not]
-            intro h1 h2; exact htr ⟨h1, h2⟩
-          simp [this]; exact hprev
+    exact ih (fun e' he' => hrep e' (List.mem_cons_of_mem _ he')) _
+      (good_step recheck s h e (hrep e List.mem_cons_self))
+
+/-- C07 (repaired code): however many goroutines ask, in whatever interleaving of their lookups and creations,
+    there is at most one feature per type and role -/
+theorem c07_one_feature_per_type_role (evs : List Ev) : OnePer (run true evs) :=
+  (good_run true evs (by intro e _; cases e <;> rfl)).1
+
+/-- the same for the code as written as long as no two calls overlap -/
+theorem c07_one_feature_per_type_role_nonoverlap (evs : List Ev) (hrep : ∀ e ∈ evs, repaired false e = true) :
+    OnePer (run false evs) :=
+  (good_run false evs hrep).1
+
+theorem unique_of_onePer (s : St) (h : OnePer s) (f g : F) (hf : f ∈ s.feats) (hg : g ∈ s.feats)
+    (ht : f.typ = g.typ) (hr : f.role = g.role) : f = g := by
+  have hl := h f.typ f.role
+  have hf' : f ∈ s.feats.filter fun x => x.typ = f.typ && x.role = f.role := by simp [hf]
+  have hg' : g ∈ s.feats.filter fun x => x.typ = f.typ && x.role = f.role := by simp [hg, ht, hr]
+  match hm : s.feats.filter fun x => x.typ = f.typ && x.role = f.role with
+  | [] => rw [hm] at hf'; simp at hf'
+  | [x] =>
+    rw [hm] at hf' hg'
+    simp only [List.mem_singleton] at hf' hg'
+    rw [hf', hg']
+  | x :: y :: rest => rw [hm] at hl; simp at hl
+
+/-- C07 (repaired code): asking repeatedly, from any goroutines, for the feature of one type and role yields one
+    and the same feature -/
+theorem c07_same_feature (evs : List Ev) (p q : Nat × F) (hp : p ∈ (run true evs).res) (hq : q ∈ (run true evs).res)
+    (ht : p.2.typ = q.2.typ) (hr : p.2.role = q.2.role) : p.2 = q.2 := by
+  have h := good_run true evs (by intro e _; cases e <;> rfl)
+  exact unique_of_onePer _ h.1 p.2 q.2 (h.2 p hp) (h.2 q hq) ht hr
 
 end Spine.Feat
